@@ -21,6 +21,7 @@ import z3
 from vf.common import Plan
 from vf.pyvc.engine import (World, T, Int, Bool, Label, LabelSort, RecT, SeqT, MapT, Rec, SeqV, MapV, PyList, Opaque, Unsupp, RaiseExc)
 from vf.pyvc.contract import FnContract, Case, LoopSpec, obligations_for, lemma
+from vf.pyvc.interp import Model
 from vf.pyvc import spec as S
 from vf.pyvc import xmaps as X
 from vf.pyvc.spec import And, Or, Not, Implies, If
@@ -34,6 +35,10 @@ OP_KINDS = ("Controlled", "ControlledOp", "Operator")       # "Operator": every 
 
 def build(tier, seed):
     plan = Plan("C46", level="proof")
+    try:
+        import pennylane  # noqa: F401  (loaded once: the forked obligation workers replay counter-models on the real code)
+    except Exception:  # pylint: disable=broad-except
+        pass
     plan.explanation = ("_count_resources is executed symbolically on tapes with operation and measurement lists of SYMBOLIC length; the "
                         "counting loops are cut by invariants `counts[k] == number of operations so far whose key is k` (proved at an "
                         "arbitrary name k) and `sum of counts == number of operations so far`; dictionaries are z3 arrays.")
@@ -234,7 +239,10 @@ def build(tier, seed):
         return And(table_ok(r.counts, CNTK(ops, z3.Length(ops), K0), K0), r.total_quantum_operations == z3.Length(ops),
                    SUMV(r.counts.val) == z3.Length(ops),
                    table_ok(r.measurement_processes, CNTM(ms, z3.Length(ms), nwires, M0), M0), SUMV(r.measurement_processes.val) == z3.Length(ms),
-                   r.num_wires == nwires, depth_ok)
+                   r.num_wires == nwires, depth_ok,
+                   # the tape is only read
+                   nw.tape.operations.term == ops, nw.tape.measurements.term == ms, nw.tape.wires.term == o.tape.wires.term,
+                   nw.tape.graph.depth == o.tape.graph.depth)
 
     TAPE = RecT("Tape")
     cases = []
@@ -265,12 +273,254 @@ def build(tier, seed):
                    assumptions=[ii >= 0, ii < z3.Length(Sa), CNTK(Sa, ii, K0) >= 0, CNTK(Sa, ii, K0) <= ii] + cntk_def(Sa, ii, K0)))
 
     size_bounded_post_init(plan, tier)
+    graph_cache_contracts(plan, tier)
+    partial_args_contracts(plan, tier)
     plan.size_bounds = ["SpecsResources.__post_init__ / _flatten_dict: dictionaries with 0..3 entries and one nested dictionary "
                         "(all integer values); larger / deeper dictionaries are not covered"]
     plan.unverified = ["circuit depth (CircuitGraph.get_depth)", "qp.specs level plumbing, transform levels, trainable-parameter counts",
                        "_mp_to_str/_obs_to_str string building (match statements)", "Resources.subs / symbolic Expression counts",
                        "tape.operations / tape.measurements / tape.wires themselves (QuantumScript is the input)"]
     return plan
+
+
+QS = "pennylane/core/qscript.py"
+UTL = "pennylane/resource/_utils.py"
+
+
+def graph_cache_contracts(plan, tier):
+    """The depth in the specs is tape.graph.get_depth(), and `graph` is CACHED in tape._graph.  Cache coherence: a script's cached
+    graph is None or the graph of the script's CURRENT operations and measurements.  QuantumScript.__init__ starts with no cache,
+    the `graph` property builds the graph of the current circuit, and QuantumScript.copy may only carry the cache over when the
+    copy has the original's operations and measurements.  Size-bounded: scripts with 1-2 operations and 1 measurement, replacement
+    lists of 0-2 operations / 0-1 measurements."""
+    OPSRC = "class {0}:\n    pass\n"
+    GRAPHOF = z3.Function("circuit_graph_of", z3.SeqSort(LabelSort), z3.SeqSort(LabelSort), LabelSort)
+
+    def b_graph(it, args, kw):
+        ops, meas = args[0], args[1]
+        return GRAPHOF(idents(ops), idents(meas))
+    w = World(QS, classes={"QuantumScript": {"_ops": Int, "_measurements": Int, "_shots": Label, "_trainable_params": Label, "_graph": Label,
+                                             "_specs": Label, "_batch_size": Int, "_obs_sharing_wires": Label, "_obs_sharing_wires_id": Label}},
+              stubs={"Operator": (OPSRC.format("Operator"), {"ident": Label}), "MeasurementProcess": (OPSRC.format("MeasurementProcess"), {"ident": Label})},
+              extra_builtins={"Shots": lambda it, a, k: a[0], "CircuitGraph": b_graph})
+    QSC, OP, MPC = w.classes["QuantumScript"], w.classes["Operator"], w.classes["MeasurementProcess"]
+    for prop in ("wires", "par_info", "trainable_params"):       # only handed to the (abstract) CircuitGraph constructor
+        QSC.props.pop(prop, None)
+        QSC.class_attrs[prop] = __import__("ast").parse("None", mode="eval").body
+
+    def seq_of_labels(xs):
+        from vf.pyvc.engine import seq_of
+        return seq_of([x.ident for x in xs], LabelSort)
+
+    def idents(v):
+        return seq_of_labels(v.items if isinstance(v, PyList) else list(v))
+
+    def recs(ctx, cls, name, n):
+        return PyList([Rec(cls, {"ident": z3.Const(ctx.fresh_name(f"{name}{i}"), LabelSort)}) for i in range(n)])
+
+    def mk_script(n_ops, n_meas, cached):
+        def mk(ctx, name):
+            ops, meas = recs(ctx, OP, f"{name}.op", n_ops), recs(ctx, MPC, f"{name}.mp", n_meas)
+            lab = lambda s_: z3.Const(ctx.fresh_name(f"{name}.{s_}"), LabelSort)
+            return Rec(QSC, {"_ops": ops, "_measurements": meas, "_shots": lab("shots"), "_trainable_params": lab("tp"),
+                             "_graph": GRAPHOF(idents(ops), idents(meas)) if cached else None, "_specs": None,
+                             "_batch_size": z3.Int(ctx.fresh_name(f"{name}.bs")), "_obs_sharing_wires": lab("osw"), "_obs_sharing_wires_id": lab("oswid")})
+        return mk
+
+    def coherent(t):
+        """the cached graph (if any) is the graph of the script's current circuit"""
+        if isinstance(t, Rec):
+            g = t.f.get("_graph")
+            return True if g is None else g == GRAPHOF(idents(t._ops), idents(t._measurements))
+        g = t._graph
+        return g is None or (len(g.operations) == len(t.operations) and all(a is b for a, b in zip(g.operations, t.operations))
+                             and len(g.observables) == len(t.measurements) and all(a is b for a, b in zip(g.observables, t.measurements)))
+
+    def n_depth_ok(t):
+        """REPLAY: the depth the specs would report equals the depth of a script built afresh from the same circuit"""
+        import pennylane as qp
+        return t.graph.get_depth() == qp.tape.QuantumScript(list(t.operations), list(t.measurements)).graph.get_depth()
+
+    # real scripts for the replay
+    def real_ops(n, base=0):
+        import pennylane as qp
+        pool = [lambda: qp.RX(0.1, 0), lambda: qp.CNOT([0, 1]), lambda: qp.Hadamard(1), lambda: qp.RY(0.3, 0)]
+        return [pool[(base + i) % len(pool)]() for i in range(n)]
+
+    def real_meas(n, base=0):
+        import pennylane as qp
+        pool = [lambda: qp.expval(qp.Z(0)), lambda: qp.probs(wires=[1])]
+        return [pool[(base + i) % len(pool)]() for i in range(n)]
+
+    def native_copy(n_ops, n_meas, cached, upd, copy_operations):
+        def call(mod, a):
+            import pennylane as qp
+            t = qp.tape.QuantumScript(real_ops(n_ops), real_meas(n_meas), shots=10)
+            if cached:
+                _ = t.graph
+            kws = {}
+            if "operations" in upd or "ops" in upd:
+                kws["ops" if "ops" in upd else "operations"] = real_ops(upd.get("operations", upd.get("ops")), base=2)
+            if "measurements" in upd:
+                kws["measurements"] = real_meas(upd["measurements"], base=1)
+            if "shots" in upd:
+                kws["shots"] = 7
+            a["self"] = t
+            return t.copy(copy_operations=copy_operations, **kws) if copy_operations else t.copy(**kws)
+        return call
+
+    def copy_post(o, r, nw):
+        ok = And(coherent(r), coherent(nw.self))
+        if not isinstance(r, Rec):
+            ok = ok and n_depth_ok(r) and n_depth_ok(nw.self)
+        return ok
+    cases = []
+    variants = [("plain", {}, False), ("copy_operations", {}, True), ("shots", {"shots": 1}, False),
+                ("operations:0", {"operations": 0}, False), ("operations:1", {"operations": 1}, False), ("operations:2", {"operations": 2}, False),
+                ("ops:0", {"ops": 0}, False), ("measurements:0", {"measurements": 0}, False), ("measurements:1", {"measurements": 1}, False),
+                ("operations:0+measurements:1", {"operations": 0, "measurements": 1}, False)]
+    for n_ops in (1, 2):
+        for cached in (True, False):
+            for label, upd, copy_ops in variants:
+                params = {"self": T("build", mk_script(n_ops, 1, cached), gen=lambda rng: None)}
+                km = {}
+                if copy_ops:
+                    params["copy_operations"] = T("const", True)
+                for key, n_new in upd.items():
+                    pname = f"new_{key}"
+                    if key == "shots":
+                        params[pname] = Label
+                    elif key == "measurements":
+                        params[pname] = T("build", lambda ctx, name, n_new=n_new: recs(ctx, MPC, name, n_new), gen=lambda rng: None)
+                    else:
+                        params[pname] = T("build", lambda ctx, name, n_new=n_new: recs(ctx, OP, name, n_new), gen=lambda rng: None)
+                    km[key] = pname
+                cases.append(Case(f"{n_ops} operations, graph {'cached' if cached else 'not built'}, copy({label})", params, size_bounded=True,
+                                  kwargs_map=km, requires=lambda a: coherent(a.self) if isinstance(a.self, Rec) else True, ensures=copy_post,
+                                  native_gen=lambda rng, m: {k: None for k in m}, native_call=native_copy(n_ops, 1, cached, upd, copy_ops)))
+    fc_copy = FnContract(w, "QuantumScript.copy", cases)
+
+    def native_graph(n_ops, cached):
+        def call(mod, a):
+            import pennylane as qp
+            t = qp.tape.QuantumScript(real_ops(n_ops), real_meas(1))
+            if cached:
+                _ = t.graph
+            a["self"] = t
+            return t.graph
+        return call
+    gcases = []
+    for n_ops in (0, 1, 2):
+        for cached in (True, False):
+            gcases.append(Case(f"{n_ops} operations, graph {'cached' if cached else 'not built'}",
+                               {"self": T("build", mk_script(n_ops, 1, cached), gen=lambda rng: None)}, size_bounded=True,
+                               requires=lambda a: coherent(a.self) if isinstance(a.self, Rec) else True, native_gen=lambda rng, m: {k: None for k in m}, native_call=native_graph(n_ops, cached),
+                               ensures=lambda o, r, nw: And(r == GRAPHOF(idents(o.self._ops), idents(o.self._measurements)), coherent(nw.self),
+                                                            nw.self._graph is not None) if isinstance(nw.self, Rec)
+                               else (coherent(nw.self) and nw.self._graph is r and n_depth_ok(nw.self))))
+    fc_graph = FnContract(w, "QuantumScript.graph", gcases)
+
+    def native_init(mod, a):
+        import pennylane as qp
+        a["self"] = qp.tape.QuantumScript(real_ops(2), real_meas(1))
+        return None
+    fc_init = FnContract(w, "QuantumScript.__init__", [
+        Case("no cached graph / specs", {"self": T("build", mk_script(0, 0, False), gen=lambda rng: None),
+                                          "ops": T("build", lambda ctx, name: recs(ctx, OP, name, 2), gen=lambda rng: None),
+                                          "measurements": T("build", lambda ctx, name: recs(ctx, MPC, name, 1), gen=lambda rng: None)},
+             size_bounded=True, native_gen=lambda rng, m: {k: None for k in m}, native_call=native_init,
+             ensures=lambda o, r, nw: And(nw.self._graph is None, nw.self._specs is None, coherent(nw.self)))])
+    for fc in (fc_copy, fc_graph, fc_init):
+        X.use_xinterp(fc)
+        plan.fn_under_contract(QS, fc.qualname)
+        for ob in obligations_for("C46", fc, tier):
+            plan.add(ob)
+    plan.assumed_contracts.append("CircuitGraph(operations, measurements, ...): a function of the operation and measurement lists (identity of "
+                                  "their elements); Shots(x): identity; copy.copy(op): an operator with the same identity")
+
+
+def partial_args_contracts(plan, tier):
+    """resource/_utils.apply_partial_args: the wrapper calls fn with the partial-bound positional arguments first and with the keyword
+    arguments merged so that CALL-TIME keywords take precedence over partial-bound ones (functools.partial semantics) -- qp.specs of a
+    functools.partial-wrapped QNode must describe the circuit built for the call-time arguments."""
+    import ast as _ast
+    calls = []
+
+    class Recorder(Model):
+        def vf_call(self, interp, args, kwargs):
+            interp.ctx.ghost.setdefault("calls", []).append((list(args), dict(kwargs)))
+            return z3.Const(interp.ctx.fresh_name("fn_result"), LabelSort)
+
+        def snapshot(self):
+            return self
+    w = World(UTL, extra_builtins={"__free__": lambda it, a, k: it.ctx.ghost["free"][a[0]]})
+    for free in ("fn", "args", "kwargs"):
+        w.module_consts[free] = _ast.parse(f"__free__({free!r})", mode="eval").body
+    cell = {}
+
+    def lab(ctx, nm):
+        return z3.Const(ctx.fresh_name(nm), LabelSort)
+
+    def mk_ghost(n_args, kw_keys):
+        def ghost(ctx, a):
+            ctx.ghost["free"] = {"fn": Recorder(), "args": tuple(lab(ctx, f"bound{i}") for i in range(n_args)),
+                                 "kwargs": {k: lab(ctx, f"bound_{k}") for k in kw_keys}}
+        return ghost
+
+    def axioms(o, r, nw, loc):
+        cell["free"], cell["calls"] = loc.ghost.free, getattr(loc.ghost, "calls", [])
+        return []
+
+    def expected_kwargs(bound, call):
+        out = dict(bound)
+        out.update(call)            # call-time keywords win
+        return out
+
+    def post(n_call, call_keys):
+        def ens(o, r, nw):
+            free, recorded = cell["free"], cell["calls"]
+            if len(recorded) != 1:
+                return False
+            pos, kws = recorded[0]
+            exp_pos = list(free["args"]) + [getattr(o, f"c{i}") for i in range(n_call)]
+            exp_kw = expected_kwargs(free["kwargs"], {k: getattr(o, f"kw_{k}") for k in call_keys})
+            return And(len(pos) == len(exp_pos), *[a_ == b_ for a_, b_ in zip(pos, exp_pos)], set(kws) == set(exp_kw),
+                       *[kws[k] == exp_kw[k] for k in exp_kw if k in kws])
+        return ens
+
+    def native(n_args, kw_keys, n_call, call_keys):
+        def call(mod, a):
+            seen = []
+
+            def fn(*args_, **kwargs_):
+                seen.append((list(args_), dict(kwargs_)))
+                return "result"
+            bound_args = tuple(f"bound{i}" for i in range(n_args))
+            bound_kw = {k: f"bound_{k}" for k in kw_keys}
+            call_args = tuple(f"call{i}" for i in range(n_call))
+            call_kw = {k: f"call_{k}" for k in call_keys}
+            res = mod.apply_partial_args(fn, bound_args, bound_kw)(*call_args, **call_kw)
+            a["__native__"] = {"ok": res == "result" and seen == [(list(bound_args) + list(call_args), expected_kwargs(bound_kw, call_kw))]}
+            return res
+        return call
+    cases = []
+    for n_args, kw_keys, n_call, call_keys in ((0, ("k",), 0, ("k",)), (1, ("k",), 1, ("k", "m")), (2, ("k", "m"), 0, ("m",)), (0, ("k",), 2, ()),
+                                               (1, (), 1, ("k",)), (1, ("k", "m"), 1, ("k", "m"))):
+        params = {f"c{i}": Label for i in range(n_call)}
+        km = {}
+        for k in call_keys:
+            params[f"kw_{k}"] = Label
+            km[k] = f"kw_{k}"
+        cases.append(Case(f"bound {n_args} args + keywords {','.join(kw_keys) or 'none'}; call {n_call} args + keywords {','.join(call_keys) or 'none'}",
+                          params, size_bounded=True, kwargs_map=km, ghost=mk_ghost(n_args, kw_keys), axioms=axioms,
+                          native_gen=lambda rng, m: {k: None for k in m}, native_call=native(n_args, kw_keys, n_call, call_keys),
+                          ensures=lambda o, r, nw, n_call=n_call, call_keys=call_keys: (nw.__native__["ok"] if hasattr(nw, "__native__")
+                                                                                             else post(n_call, call_keys)(o, r, nw))))
+    fc = FnContract(w, "apply_partial_args.<locals>.wrapper", cases)
+    X.use_xinterp(fc)
+    plan.fn_under_contract(UTL, fc.qualname)
+    for ob in obligations_for("C46", fc, tier):
+        plan.add(ob)
 
 
 def size_bounded_post_init(plan, tier):
@@ -330,7 +580,8 @@ def size_bounded_post_init(plan, tier):
         dt = T("build", lambda ctx, name, shape=shape: shape_value(shape, ctx, name), gen=lambda rng, shape=shape: shape_gen(shape, rng))
         lab = "shape:" + repr(shape).replace(": 0", "").replace("'", "")
         fc = FnContract(w, "_flatten_dict", [
-            Case(lab, {"data": dt}, size_bounded=True, ensures=lambda o, r, nw: dict_eq(r, leaves(o.data)))])
+            Case(lab, {"data": dt}, size_bounded=True,
+                 ensures=lambda o, r, nw: And(dict_eq(r, leaves(o.data)), dict_eq(leaves(nw.data), leaves(o.data)), r is not nw.data))])
         X.use_xinterp(fc)
         plan.fn_under_contract(RES, "_flatten_dict")
         for ob in obligations_for("C46", fc, tier):
@@ -339,7 +590,8 @@ def size_bounded_post_init(plan, tier):
                                                    "circuit_depth": T("const", None)})
         fc2 = FnContract(w, "SpecsResources.__post_init__", [
             Case(lab, {"self": st}, size_bounded=True, native_call=native_post_init,
-                 ensures=lambda o, r, nw: nw.self.total_quantum_operations == total(o.self.counts))])
+                 ensures=lambda o, r, nw: And(nw.self.total_quantum_operations == total(o.self.counts),
+                                              dict_eq(leaves(nw.self.counts), leaves(o.self.counts))))])
         X.use_xinterp(fc2)
         plan.fn_under_contract(RES, "SpecsResources.__post_init__")
         for ob in obligations_for("C46", fc2, tier):
